@@ -97,6 +97,12 @@ CHECKS.update({
          "Generator asserts the quantifier's side conditions; words never longer than a line; deviations beyond 2 at once not covered.", "§5 C01"),
 })
 
+CHECKS.update({
+ "C03": ("exhaustive enumeration of map-iteration orders (environment-answer exploration of the real Build) over deviation-bounded assembled records and over the parser's image; independent column-based reader as layout oracle",
+         "range-over-map inside io/genbank is rewritten at build time so that the iteration order of every map is an explorer choice; Build is executed under EVERY order (all n! for up to 4 keys, rotations/reversals beyond) for assembled records with at most 2 (3 thorough) deviations (sequence length, topology, metadata of 100/2000 characters, 0/1/2/5 references with/without REMARK, 0..3 extra keyword blocks, 0..3 features x 7 location shapes x cached location text x 0/1/2/3/8 qualifiers) and for every record the parser returns over the generated C01 file set (feature lists <= 2, 1 deviation). All outputs of one record must be byte-identical; Parse(Build(x)) must equal x in sequence, locus, metadata, references incl. REMARK, other keywords and features (key, location tree, qualifier map); an independent column-based flat-file reader (self-checked against the independent writer) must recover the same record from the text.",
+         "Location trees compared up to partial flags of internal nodes; a..b> locations are the recorded C02 finding and skipped by the layout clause; LOCUS read token-wise.", "§5 C03"),
+})
+
 NOT_YET = {}
 
 props = [json.loads(l) for l in open('/verif/properties.jsonl')]
